@@ -82,11 +82,9 @@ func c08RoundTrip(e *Emitter, group string, src []byte, tags []string) {
 		desc["reparse"] = "syntax error"
 	}
 	if !utf8.Valid(src) {
-		// source bytes that are not valid UTF-8 are not judged (Appendix A): only Print's own behaviour is
+		// since fixes/C08-invalid-utf8-bytes.patch the law is judged on these sources too: bytes that do not
+		// decode survive inside strings and descriptions (and are dropped with comments / ignored positions)
 		c.Tags = append(c.Tags, "invalid-utf8")
-		c.Coq = fmt.Sprintf("NoEdit %s", coqBool(unchanged))
-		e.Emit(c)
-		return
 	}
 	c.Coq = fmt.Sprintf("RoundTrip %s %s %s %s %s %s", coqHex(src), before, coqHex([]byte(printed)), coqOpt(reterm, ok2), coqBool(stable), coqBool(unchanged))
 	e.Emit(c)
@@ -256,6 +254,9 @@ func genC08(tier string, seed uint64, n int, e *Emitter) {
 		`"a\n b" type T { a: Int }`, `"a\n\nb" scalar S`, `"a\n \nb" scalar S`, `"tab\there" scalar S`, `" lead" scalar S`, `"trail " scalar S`, `"a\n" scalar S`, `"\ta\nb" scalar S`,
 		`"x\\y\"z" scalar S`, `"\\\"\"\"" scalar S`, `"é\n😀" enum E { "é\n 😀\nz" A }`, `extend "d\ne" type T implements & A & B @x { "f\ng" a("h\ni" x: Int = 1 @y): Int }`,
 		`"d\ne" directive @d("a\nb" x: Int = 1, y: S) on A | B | C`, `"d" input I { "a\nb" a: Int = 1 @x b: S = {k: [1, "s"]} }`, `type T implements & A { a: Int }`, `schema @a @b(x: 1) { query: Q mutation: M subscription: S }`,
+		// bytes that are not valid UTF-8 inside string values and descriptions (quoted and block form), next to U+FFFD itself
+		"{ a(x: \"\xff\") }", "{ a(x: \"\xc3\\\"\", y: \"\xe2\x82\", z: \"\xf0\x9f\x98 \ufffd\xed\xa0\x80\") }", "\"d\xc3\" scalar S", "\"d\xff\\\"\" scalar S", "query($v: S = {k: [\"\x80\xbf\"]}) @d(x: \"a\xfe\\nb\") { a #\xff\n }",
+		"\"\xc3\\n \xa9\\nz\" type T { \"\xe9\" a(\"x\xff\\ny\" b: Int): Int }",
 		`"""block\n  string""" type T { """  indented\n  block""" a: Int }`, "\"\"\"\n  a\n    b\n  c\n\"\"\" scalar S",
 	} {
 		c08RoundTrip(e, "corpus", []byte(s), []string{"corpus"})
